@@ -21,9 +21,12 @@ def tval(t):
     return [0.0, 0.0, 0.0] if t is None else [0.0 if v is None else float(v) for v in t]
 
 
-def rand_triple(rng, allow_empty=True):
+def rand_triple(rng, allow_empty=True, allow_negative=False):
     if allow_empty and rng.random() < 0.12:
         return None
+    if allow_negative and rng.random() < 0.15:
+        base = -rng.randrange(20, 60) / 8            # negative delays are legal SDF and are annotated as written
+        return [base, base + rng.randrange(0, 8) / 8, base + rng.randrange(8, 16) / 8]
     base = rng.randrange(1, 40) / 8
     t = [base, base + rng.randrange(0, 8) / 8, base + rng.randrange(8, 16) / 8]
     if allow_empty and rng.random() < 0.1:
@@ -53,7 +56,9 @@ def make_truth(N, c, lib, rng):
             if pins.get(p) is None or pins[p].startswith("1'b"):
                 continue
             if rng.random() < 0.85:
-                io.append((inst, p, None, outs[0], rand_triple(rng), rand_triple(rng) if rng.random() < 0.8 else 'same'))
+                # an edge qualifier on any input restricts that entry (and only that entry) to one input polarity
+                edge = rng.choice(['posedge', 'negedge']) if rng.random() < 0.3 else None
+                io.append((inst, p, edge, outs[0], rand_triple(rng, True, True), rand_triple(rng, True, True) if rng.random() < 0.8 else 'same'))
     # interconnects: from the driver of a signal (instance output pin or input port) to a reading instance pin
     drivers = {}
     for inst, ct, pins in N.insts:
